@@ -11,6 +11,7 @@ CONSTANTS
   Alphabet = "tiny"
   Prefits = {"none", "fit", "fitbase"}
   CfgSel = "all"
+  Sample = 0
   Depth = 4
 CONSTRAINT Bound
 VIEW MCView
